@@ -708,11 +708,12 @@ def stream_emit(ctx: Ctx) -> Stream:
 STATEMENTS = {
 	'ladder_eq': 'the operators/levels/kinds the model enumerates = the expression ladder translated from data/grammar.lark (decide)',
 	'ops_total': 'for every ladder operator, operand-type pair and dict flag a branch of the translated binary_operator.j2 / binary_in.j2 is selected and mentions both operands; unary/ternary/group likewise (decide over generated tables)',
-	'group_iff': 'for every grammar-producible operator node of the core: Prec.parse cppTable (emitted tokens) = Python\'s grouping  <=>  no comparison chain, no fused --/++, no parent/child slot in badPairs (computed from the two tables)',
-	'group_witnesses': 'a & b == c, not a == b, a | b < c, a < b < c, - -a are grammar-producible core nodes that C++ does not regroup like Python',
-	'group_counterexample': 'not group_statement: the full grouping sentence of the property is false on the pinned tree (witness a & b == c; replayed on the real code by corpus/C01/f1-bitand-over-compare.json)',
+	'emitter_table_agrees': 'CppOperatorPrecedences (translated from py2cpp.py) gives every core infix operator the level of its C++ symbol in cppTable (+1), and `!` the unary value above all of them',
+	'group': 'group_statement proved: for every grammar-producible operator node of the core without a comparison chain, C++ lexing merges no emitted tokens, Prec.parse cppTable parses them, and the tree is Python\'s grouping up to the parentheses the guards added (by construction: is_regrouped_operand / on_factor / on_not_compare)',
+	'group_full_counterexample': 'without the explicit exclusion the sentence is false: a < b < c (known finding chain-compare; corpus/C01/f2-chain-compare.json on the real code)',
+	'flat_iff': 'the unguarded flat text (emitter before 0598c93) is re-parsed into Python\'s tree iff no parent/child slot is in badPairs (60 slots computed from the two tables): why the guards are needed',
 	'sem': 'inside the agreement subset (32-bit ints, % on non-negative/positive operands, no /, shifts 0..31, bools under and/or/not, no comparison chain) the C++ value of the tree with Python\'s grouping equals the Python value, without UB',
-	'agree': 'group_iff + sem: no bad pair and in-subset evaluation => the emitted token text, as C++ parses it, evaluates to the Python value',
+	'agree': 'group + sem: for chain-free core nodes and in-subset evaluations the emitted token text, as C++ parses it, evaluates to the Python value',
 }
 
 
@@ -739,16 +740,16 @@ def run(ctx: Ctx) -> int:
 			pl.close()
 	return common.finish(ctx, proof, streams, searches, statements=STATEMENTS, translate_ok=translate_ok, translate_msg=translate_msg,
 		partial={
-			'proved': 'operator core: emitted tokens re-parsed by the C++ table = Python grouping iff no bad pair (group_iff), exact counterexamples, '
-				'operator semantics agree inside the subset (sem), template/ladder totality (ops_total, ladder_eq)',
+			'proved': 'operator core: emitted tokens re-parsed by the C++ table = Python grouping for every chain-free node (group, by construction of the guards), '
+				'the emitter\'s precedence table agrees with the C++ grammar table, operator semantics agree inside the subset (sem, agree), template/ladder totality (ops_total, ladder_eq)',
 			'correspondence_only': 'Model.Emit = real Py2Cpp on operator nodes (stream emit: exact text, tokens, wf, CPython grouping); cppTable = g++\'s grammar (stream cpptable)',
 			'search_only': 'statements, functions, classes, containers, comprehensions, strings, casts, exceptions, acceptance by g++ -std=c++20, never-rejected: generated programs vs CPython',
-			'false_on_pinned_tree': 'the grouping sentence (group_counterexample) — see proposed/C01-*.md',
+			'false_on_current_tree': 'the grouping sentence for comparison chains (group_full_counterexample; known finding chain-compare)',
 		},
 		assumptions=[
 			'an atom is any primary; its text is whatever its own handler rendered (leaf handlers are outside the model)',
 			'the domain name of each chain element is the one Reflections.type_of/to_domain_name gave (type inference is C03\'s subject)',
-			'ternary, in / not in, <> and float % are emitted by the model (stream emit) but excluded from group_iff (`core`); ternary operands are or_tests and `?:` binds loosest in C++',
+			'ternary, in / not in, <> and float % are emitted by the model (stream emit) but excluded from the grouping theorems (`core`); ternary operands are or_tests and `?:` binds loosest in C++',
 			'floats are not modelled in `sem`; the search restricts floats to values exactly representable in binary32',
 		],
 		trusted=['cppTable: ISO C++20 expression grammar transcribed (validated against g++ by stream cpptable)',
